@@ -22,8 +22,9 @@ pub struct PaddingFactory {
     md5: String,
 }
 
-/// Global padding factory
-static DEFAULT_FACTORY: std::sync::OnceLock<Arc<PaddingFactory>> = std::sync::OnceLock::new();
+/// Global padding factory (replaceable: a scheme pushed by the server becomes the new default)
+static DEFAULT_FACTORY: std::sync::RwLock<Option<Arc<PaddingFactory>>> =
+    std::sync::RwLock::new(None);
 
 impl PaddingFactory {
     /// Create a new PaddingFactory from raw scheme bytes
@@ -53,8 +54,13 @@ impl PaddingFactory {
     /// with creating a new factory. This returns a shared singleton instance.
     #[allow(clippy::should_implement_trait)]
     pub fn default() -> Arc<Self> {
+        if let Some(factory) = DEFAULT_FACTORY.read().unwrap().as_ref() {
+            return factory.clone();
+        }
         DEFAULT_FACTORY
-            .get_or_init(|| {
+            .write()
+            .unwrap()
+            .get_or_insert_with(|| {
                 Arc::new(
                     Self::new(DEFAULT_PADDING_SCHEME.as_bytes())
                         .expect("default padding scheme should be valid"),
@@ -66,9 +72,10 @@ impl PaddingFactory {
     /// Update the default padding factory
     pub fn update_default(raw_scheme: &[u8]) -> Result<(), String> {
         let factory = Arc::new(Self::new(raw_scheme)?);
-        DEFAULT_FACTORY
-            .set(factory)
-            .map_err(|_| "failed to update default factory".to_string())
+        // Replace the default even if it has been read or set before: every
+        // push during the life of the process must take effect.
+        *DEFAULT_FACTORY.write().unwrap() = Some(factory);
+        Ok(())
     }
 
     /// Get the stop value
